@@ -20,6 +20,8 @@
 //   route  every ordered pair of pack types (A, B): create A, use, release, create B three times — B has its
 //          own concrete type, is clean and reads like a never-used pack; random create/use/release histories
 //          with several packs of a few types alive.  A panic of CreatePack/ClosePack is a property failure.
+//   fault  ToPack of every truncation and of damaged copies of short datagrams of every type, each followed by
+//          CreatePack of that type: the packs handed out are never-used packs, nothing of the failed datagram is reachable.
 //   conc   12 (16) goroutines, each writing and reading back (CreatePack, Read, Process, ClosePack) its own stream
 //          of packs of all types at several versions at the same time; numeric fields non-zero and distinct per
 //          goroutine; every encoding equals the sequentially pre-computed bytes, every decode the sequential one.
@@ -1418,6 +1420,7 @@ type concItem struct {
 	rec     map[string]string
 	bytes   []byte   // sequential encoding
 	decoded [2]string // all fields after Read + Process on a never-used pack: constructor, constructor + Clear()
+	clean   [2]string // all fields of a never-used pack with Ver set: constructor, constructor + Clear()
 	ok      bool
 }
 
@@ -1465,6 +1468,30 @@ func concDecode(it *concItem, q udp.UdpPack, b []byte) (string, vh.Outcome) {
 	return out, o
 }
 
+// direct access to two fields of the three hot types (no reflection: the tight loop must be fast)
+func tightGet(p udp.UdpPack) (int64, string) {
+	switch x := p.(type) {
+	case *udp.UdpTxSqlPack:
+		return x.Txid, x.Dbc
+	case *udp.UdpTxEndPack:
+		return x.Txid, x.Host
+	case *udp.UdpTxStartPack:
+		return x.Txid, x.Host
+	}
+	return 0, ""
+}
+
+func tightSet(p udp.UdpPack, tx int64, text string) {
+	switch x := p.(type) {
+	case *udp.UdpTxSqlPack:
+		x.Txid, x.Dbc = tx, text
+	case *udp.UdpTxEndPack:
+		x.Txid, x.Host = tx, text
+	case *udp.UdpTxStartPack:
+		x.Txid, x.Host = tx, text
+	}
+}
+
 // stageConc: G goroutines, each writing and reading back its own stream of packs at the same time; every
 // encoding must be the sequentially pre-computed bytes and every decode (Read + Process on a pack from
 // CreatePack, released afterwards) what a sequential run gives.  The tracer has one goroutine per transaction.
@@ -1492,6 +1519,7 @@ func stageConc() {
 				refNew := pt_new(pt, ver)
 				refClr := pt.new()
 				vh.Guard(func() { refClr.Clear(); refClr.SetVersion(ver) })
+				it.clean = [2]string{canon(refNew, true), canon(refClr, true)}
 				d0, o0 := concDecode(it, refNew, b)
 				d1, o1 := concDecode(it, refClr, b)
 				if !o0.OK() || !o1.OK() {
@@ -1503,6 +1531,39 @@ func stageConc() {
 			}
 		}
 	}
+	// the hot types: one item per (hot type, goroutine), all at the same version
+	hotIters := 1500
+	if env.Thorough {
+		hotIters = 20000
+	}
+	var hot [][]*concItem
+	for _, tn := range []string{"UdpTxSqlPack", "UdpTxEndPack", "UdpTxStartPack", "UdpConfigPack"} {
+		row := make([]*concItem, G)
+		okRow := true
+		for g := 0; g < G; g++ {
+			for _, it := range streams[g] {
+				if it.pt.name == tn && it.ver == vers[0] {
+					row[g] = it
+				}
+			}
+			if row[g] == nil {
+				okRow = false
+			}
+		}
+		if okRow {
+			hot = append(hot, row)
+		}
+	}
+	if len(hot) == 0 {
+		hotIters = 0
+		hot = [][]*concItem{make([]*concItem, G)}
+	}
+	tightIters := 120000
+	if env.Thorough {
+		tightIters = 1500000
+	}
+	tightCodes := []uint8{udp.TX_SQL, udp.TX_END, udp.TX_START}
+	var tightBad []string
 	type bad struct {
 		it        *concItem
 		g         int
@@ -1536,6 +1597,11 @@ func stageConc() {
 						mu.Unlock()
 						continue
 					}
+					if c0 := canon(q, true); c0 != it.clean[0] && c0 != it.clean[1] {
+						mu.Lock()
+						bads = append(bads, bad{it, g, "pack just obtained from CreatePack (before Read)", vh.Clip(c0, 300)})
+						mu.Unlock()
+					}
 					d, od := concDecode(it, q, b)
 					vh.Guard(func() { udp.ClosePack(q) })
 					if !od.OK() || (d != it.decoded[0] && d != it.decoded[1]) {
@@ -1545,6 +1611,92 @@ func stageConc() {
 					}
 				}
 			}
+			// hot phase: every goroutine on the same few types, several packs held at once (so that the pool
+			// hands objects from one goroutine to another); a pack must be clean when it is handed out and must
+			// still hold what this goroutine put into it after a busy window (a Clear() arriving late from another
+			// goroutine's ClosePack would wipe it)
+			for iter := 0; iter < hotIters; iter++ {
+				it := hot[(iter+g)%len(hot)][g]
+				var held []udp.UdpPack
+				var filled []string
+				for k := 0; k < 3; k++ {
+					var q udp.UdpPack
+					if oc := vh.Guard(func() { q = udp.CreatePack(it.pt.code, it.ver) }); !oc.OK() || q == nil || reflect.ValueOf(q).IsNil() {
+						mu.Lock()
+						bads = append(bads, bad{it, g, "CreatePack", oc.Panic})
+						mu.Unlock()
+						continue
+					}
+					if c0 := canon(q, true); c0 != it.clean[0] && c0 != it.clean[1] {
+						mu.Lock()
+						bads = append(bads, bad{it, g, "pack just obtained from CreatePack (before Read)", vh.Clip(c0, 300)})
+						mu.Unlock()
+					}
+					d, od := concDecode(it, q, it.bytes)
+					if !od.OK() || (d != it.decoded[0] && d != it.decoded[1]) {
+						mu.Lock()
+						bads = append(bads, bad{it, g, "decode", vh.Clip(d, 300) + od.Panic})
+						mu.Unlock()
+					}
+					held = append(held, q)
+					filled = append(filled, d)
+				}
+				for spin := 0; spin < 40; spin++ { // busy window; no verdict depends on its length
+					runtime.Gosched()
+				}
+				for k, q := range held {
+					if d2 := canon(q, true); d2 != filled[k] {
+						mu.Lock()
+						bads = append(bads, bad{it, g, "pack held by the goroutine, re-read after a busy window (fields wiped or changed by someone else)", vh.Clip(d2, 300)})
+						mu.Unlock()
+					}
+				}
+				for _, q := range held {
+					vh.Guard(func() { udp.ClosePack(q) })
+				}
+				n += len(held)
+			}
+			// tight phase: create → must be clean → fill → short spin → must still be filled → release, two packs at a
+			// time (the second release goes to the pool's shared queue, where other goroutines take it), with direct
+			// field access so that the loop is as fast as the tracer's
+			mark := int64(g+1)*1000003 + 17
+			text := fmt.Sprintf("g%d", g)
+			for iter := 0; iter < tightIters; iter++ {
+				var ps [2]udp.UdpPack
+				for k := 0; k < 2; k++ {
+					code := tightCodes[(iter+k)%len(tightCodes)]
+					o := vh.Guard(func() { ps[k] = udp.CreatePack(code, 50100) })
+					if !o.OK() || ps[k] == nil {
+						continue
+					}
+					if tx, tv := tightGet(ps[k]); tx != 0 || tv != "" {
+						mu.Lock()
+						if len(tightBad) < 20 {
+							tightBad = append(tightBad, fmt.Sprintf("goroutine %d: %T from CreatePack carries Txid=%d text=%q of another use", g, ps[k], tx, tv))
+						}
+						mu.Unlock()
+					}
+					tightSet(ps[k], mark, text)
+				}
+				for spin := 0; spin < 3; spin++ {
+					runtime.Gosched()
+				}
+				for k := 0; k < 2; k++ {
+					if ps[k] == nil {
+						continue
+					}
+					if tx, tv := tightGet(ps[k]); tx != mark || tv != text {
+						mu.Lock()
+						if len(tightBad) < 20 {
+							tightBad = append(tightBad, fmt.Sprintf("goroutine %d: a %T it holds and filled with Txid=%d text=%q now has Txid=%d text=%q", g, ps[k], mark, text, tx, tv))
+						}
+						mu.Unlock()
+					}
+					q := ps[k]
+					vh.Guard(func() { udp.ClosePack(q) })
+				}
+				n += 2
+			}
 			mu.Lock()
 			ops += int64(n)
 			mu.Unlock()
@@ -1552,6 +1704,10 @@ func stageConc() {
 	}
 	close(start)
 	wg.Wait()
+	for _, tb := range tightBad {
+		rep.Fail("property", "Pool:differs-under-concurrency", tb+fmt.Sprintf(" (%d goroutines creating, filling and releasing packs of three types at the same time)", G),
+			map[string]interface{}{"stage": "conc", "goroutines": G, "what": tb})
+	}
 	rep.CountN("conc.write_read_process_ops", int(ops))
 	rep.CountN("conc.goroutines", G)
 	for g := 0; g < G; g++ {
@@ -1559,14 +1715,104 @@ func stageConc() {
 	}
 	for _, b := range bads {
 		want := vh.Clip(vh.Hex(b.it.bytes), 200)
-		if b.what == "decode" {
+		if b.what == "decode" || strings.HasPrefix(b.what, "pack held") {
 			want = vh.Clip(b.it.decoded[1], 300)
+		}
+		if strings.HasPrefix(b.what, "pack just obtained") {
+			want = vh.Clip(b.it.clean[1], 300)
 		}
 		rep.Fail("property", b.it.pt.name+":differs-under-concurrency",
 			fmt.Sprintf("%s version %d, with %d goroutines writing and reading their own packs at the same time: the %s of goroutine %d's pack is %s; sequentially it is %s",
 				b.it.pt.name, b.it.ver, G, b.what, b.g, b.got, want),
 			map[string]interface{}{"stage": "conc", "type": b.it.pt.name, "ver": b.it.ver, "rec": recString(b.it.pt, b.it.rec), "goroutines": G})
 	}
+}
+
+// ---------------------------------------------------------------- stage fault: failing decodes in pool histories
+
+// stageFault: ToPack / ReadPack of truncated and corrupted datagrams (every pack type, cut at every offset of
+// a short encoding — hence at every field boundary, in particular right after the password-bearing Dbc —, length
+// prefixes damaged), interleaved with CreatePack of the same type.  Whatever the failing decode did (panic inside
+// Read or Process, half-read pack), every pack handed out afterwards must be a never-used pack on every field;
+// the datagrams carry a password marker that must not be reachable from it.
+func stageFault() {
+	r := rng.Fork()
+	vers := []int32{50100, 10110, 20104}
+	if env.Thorough {
+		vers = []int32{50100, 50101, 10110, 10101, 20104, 30103, 40001}
+	}
+	n := 0
+	for ti := range ptypes {
+		pt := &ptypes[ti]
+		for _, ver := range vers {
+			rec := concRec(r, pt, 7, n)
+			for _, f := range fieldsOf(pt.zero()) { // short texts: the whole encoding stays small
+				if f.typ.Kind() == reflect.String && f.name != "Dbc" && f.name != "Data" {
+					rec[f.name] = "s" + vh.Hex([]byte("STALE-"+f.name))
+				}
+			}
+			if _, ok := rec["Dbc"]; ok {
+				rec["Dbc"] = "s" + vh.Hex([]byte("user=u;password=PWSTALEx9 host=h"))
+			}
+			full, o := goWrite(pt, ver, rec)
+			if !o.OK() {
+				continue
+			}
+			var grams [][]byte
+			for cut := 0; cut < len(full); cut++ {
+				if len(full) > 400 && cut%7 != 0 {
+					continue
+				}
+				grams = append(grams, full[:cut])
+			}
+			for k := 0; k < 12 && len(full) > 2; k++ { // damaged bytes (length prefixes among them)
+				g := append([]byte{}, full...)
+				i := r.Intn(len(g))
+				g[i] = byte(r.PickInt([]int{0xff, 0x7f, 0x80, 0x00, int(g[i]) + 1}))
+				grams = append(grams, g)
+			}
+			for _, gram := range grams {
+				n++
+				hist := []string{fmt.Sprintf("ToPack(%s, %d, %s)", pt.name, ver, vh.Clip(vh.Hex(gram), 400))}
+				var tp udp.UdpPack
+				od := vh.Guard(func() { tp = udp.ToPack(pt.code, ver, gram) })
+				if od.OK() {
+					rep.Count("fault.decode_ok")
+					if tp != nil && !reflect.ValueOf(tp).IsNil() {
+						implClose("fault", pt, tp, hist) // the caller owns a pack it was given
+						hist = append(hist, "ClosePack")
+					}
+				} else {
+					rep.Count("fault.decode_panics")
+					hist[0] += " panics"
+				}
+				var got []udp.UdpPack
+				for k := 0; k < 2; k++ {
+					q, ok := implCreate("fault", pt, ver, hist)
+					hist = append(hist, fmt.Sprintf("CreatePack(%s, %d)", pt.name, ver))
+					if !ok {
+						break
+					}
+					if ds := cleanDiff(pt, q, ver, nil); len(ds) > 0 {
+						var fs []string
+						for _, d := range ds {
+							fs = append(fs, fmt.Sprintf("%s = %s (never-used: %s)", d.path, vh.Clip(d.got, 60), vh.Clip(d.want, 30)))
+						}
+						failSafe("property", pt.name+":stale-after-failed-decode",
+							"a pack from CreatePack after a failing decode of the same type is not a never-used pack: "+vh.Clip(strings.Join(fs, "; "), 500), histReplay("fault", pt.name, hist))
+					} else if all := canon(q, true); strings.Contains(all, vh.Hex([]byte("PWSTALE"))) || strings.Contains(all, vh.Hex([]byte("STALE-"))) {
+						failSafe("property", pt.name+":stale-after-failed-decode", "a pack from CreatePack after a failing decode still reaches values of the failed datagram: "+vh.Clip(all, 300), histReplay("fault", pt.name, hist))
+					}
+					got = append(got, q)
+				}
+				for _, q := range got {
+					implClose("fault", pt, q, hist)
+				}
+				rep.Case(fmt.Sprintf("fault %s %d %s", pt.name, ver, vh.Hex(gram)), true)
+			}
+		}
+	}
+	rep.CountN("fault.datagrams", n)
 }
 
 // ---------------------------------------------------------------- stage route: pools across types
@@ -2564,6 +2810,8 @@ func runReplay(path string) {
 			}
 			rep.Case("proc replay "+rec, true)
 			rep.Note("proc replay: model answers %s (packs with derived pointer fields cannot be rebuilt from a record; re-run the stage with the seed of the replay)", vh.Clip(outs[0], 200))
+		case "fault":
+			stageFault()
 		case "conc":
 			stageConc()
 		case "route":
@@ -2667,6 +2915,7 @@ func main() {
 	runStage("pool", stagePool)
 	runStage("pool2", stagePool2)
 	runStage("route", stageRoute)
+	runStage("fault", stageFault)
 	runStage("conc", stageConc)
 	runStage("mask", stageMask)
 	runStage("paramkv", stageParamKV)
